@@ -1,0 +1,50 @@
+//go:build verif
+
+package bam
+
+import (
+	"github.com/biogo/hts/bgzf"
+	"github.com/biogo/hts/internal"
+)
+
+// VerifBin is a view of one index bin for the verification harness.
+type VerifBin struct {
+	Bin    uint32
+	Chunks []bgzf.Chunk
+}
+
+// VerifRef is a view of one reference index for the verification harness.
+type VerifRef struct {
+	Bins      []VerifBin
+	HasStats  bool
+	Stats     internal.ReferenceStats
+	Intervals []bgzf.Offset
+}
+
+// VerifRawChunks returns the chunks found by the index before the merge
+// strategy of Chunks is applied.
+func (i *Index) VerifRawChunks(rid, beg, end int) ([]bgzf.Chunk, error) {
+	return i.idx.Chunks(rid, beg, end)
+}
+
+// VerifDump returns a copy of the index structure.
+func (i *Index) VerifDump() (refs []VerifRef, sorted bool, last int) {
+	return VerifDumpInternal(&i.idx)
+}
+
+// VerifDumpInternal copies the structure of an internal index.
+func VerifDumpInternal(idx *internal.Index) (refs []VerifRef, sorted bool, last int) {
+	for _, r := range idx.Refs {
+		var v VerifRef
+		for _, b := range r.Bins {
+			v.Bins = append(v.Bins, VerifBin{Bin: b.Bin, Chunks: append([]bgzf.Chunk(nil), b.Chunks...)})
+		}
+		if r.Stats != nil {
+			v.HasStats = true
+			v.Stats = *r.Stats
+		}
+		v.Intervals = append([]bgzf.Offset(nil), r.Intervals...)
+		refs = append(refs, v)
+	}
+	return refs, idx.IsSorted, idx.LastRecord
+}
